@@ -103,7 +103,7 @@ func (interp *Interpreter) run(n *node, cf *frame) {
 	if cf == nil {
 		f = interp.frame
 	} else {
-		f = newFrame(cf, len(n.types), interp.runid())
+		f = newFrame(cf, len(n.types), cf.runid())
 	}
 	interp.mutex.RLock()
 	c := reflect.ValueOf(interp.done)
